@@ -632,7 +632,11 @@ class Verifier:
         if real[0] == "ret":
             env_extra = dict(vars_, result=real[1])
             for i, e in enumerate(contract.ensures):
-                t = ops.truth_term(self.eval_expr(e, env_extra))
+                try:
+                    t = ops.truth_term(self.eval_expr(e, env_extra))
+                except PyRaise as pr:
+                    self.check(f"ensures#{i}-raised[{pr.exc.cls.name}]", False)
+                    continue
                 self.check(f"ensures#{i}", t)
         else:
             if not contract.ref and contract.raises_only is None:
